@@ -6,6 +6,7 @@ import (
 	"grog/internal/console"
 	"grog/internal/label"
 	"grog/internal/model"
+	"grog/internal/verifhook"
 	"sync"
 )
 
@@ -112,6 +113,7 @@ func (w *Walker) Walk(
 			// skip unselected targets
 			continue
 		}
+		verifhook.Gate("walk.loop", "n", node.GetLabel().String())
 
 		doneCh := make(chan Completion, 1)
 		readyCh := make(chan interface{}, 1)
@@ -122,6 +124,7 @@ func (w *Walker) Walk(
 			ready:  readyCh,
 			cancel: cancelCh,
 		}
+		verifhook.Emit("walk.register", "n", node.GetLabel().String())
 
 		w.wait.Add(1)
 		// start all routines
@@ -133,6 +136,7 @@ func (w *Walker) Walk(
 		}
 	}
 
+	verifhook.Emit("walk.registered")
 	// Wait for all goroutines to complete
 	done := make(chan struct{})
 	go func() {
@@ -142,8 +146,10 @@ func (w *Walker) Walk(
 
 	select {
 	case <-done:
+		verifhook.Emit("walk.return", "kind", "done")
 		return w.completions, nil
 	case <-ctx.Done():
+		verifhook.Emit("walk.return", "kind", "ctx")
 		logger.Debugf(
 			"context cancelled, cancelling all workers",
 		)
@@ -163,6 +169,7 @@ func (w *Walker) cancelNode(node model.BuildNode) {
 	defer w.nodeMutex.Unlock()
 
 	// cancel the node routine
+	verifhook.Emit("cancel.lookup", "n", node.GetLabel().String(), "found", w.nodeInfoMap[node.GetLabel()] != nil)
 	if info, ok := w.nodeInfoMap[node.GetLabel()]; ok {
 		info.cancelOnce.Do(func() {
 			close(info.cancel)
@@ -174,6 +181,7 @@ func (w *Walker) cancelNode(node model.BuildNode) {
 func (w *Walker) startNode(node model.BuildNode) {
 	w.nodeMutex.Lock()
 	defer w.nodeMutex.Unlock()
+	verifhook.Emit("start.lookup", "n", node.GetLabel().String(), "found", w.nodeInfoMap[node.GetLabel()] != nil)
 	if info, ok := w.nodeInfoMap[node.GetLabel()]; ok {
 		go func() {
 			info.ready <- true
@@ -191,6 +199,7 @@ func (w *Walker) onComplete(node model.BuildNode, completion Completion) {
 	// Mark node as done
 	completion.NodeType = node.GetType()
 	w.completions[node.GetLabel()] = completion
+	verifhook.Emit("node.complete", "n", node.GetLabel().String(), "ok", completion.IsSuccess, "ff", w.failFastTriggered)
 
 	if w.failFastTriggered {
 		// If failFast was triggered, we assume everything is being cancelled already
@@ -235,6 +244,7 @@ func (w *Walker) onComplete(node model.BuildNode, completion Completion) {
 func (w *Walker) cancelAll() {
 	for _, node := range w.graph.nodes {
 		go func(v model.BuildNode) {
+			verifhook.Gate("cancel.async", "n", v.GetLabel().String())
 			w.cancelNode(v)
 		}(node)
 	}
@@ -250,13 +260,16 @@ func (w *Walker) nodeRoutine(
 
 	select {
 	case <-info.cancel:
+		verifhook.Emit("node.took", "n", node.GetLabel().String(), "what", "cancel")
 		return
 	case <-info.ready:
+		verifhook.Emit("node.took", "n", node.GetLabel().String(), "what", "ready")
 		// call the callback
 		cacheResult, err := w.walkCallback(ctx, node)
 		if err != nil {
 			if errors.Is(err, context.Canceled) {
 				// Cancelling externally or via failFast leaves target uncompleted
+				verifhook.Emit("node.canceled", "n", node.GetLabel().String())
 				return
 			}
 			// don't account for cache hits in errors
